@@ -1338,6 +1338,12 @@ func (x *c13ctx) prepLabels() {
 			dkey := x.cb.Key + "|" + ct.name + "|descriptor built per label set"
 			start := core.Point{B: x.body, I: -1}
 			if tr, found := c13search(x.g, nil, &start, core.At(ct.hit.P), core.At(defs...), x.head); found {
+				// built once per invocation of the callback, before the loop?  Then it is one metric's descriptor
+				// for all of that metric's label sets: a different design, which the pairing rules below do not model
+				if _, carried := x.g.Search(core.Query{Goal: core.At(ct.hit.P), Avoid: core.At(defs...)}); !carried && len(defs) > 0 {
+					c.Undecided(R, dkey, pos(c, ct.call), "the descriptor variable "+id.Name+" is built once per metric (before the loop over its label sets), not once per label set: whether its label names match the values of every label set is not decided for this design")
+					continue
+				}
 				c.Fail(R, dkey, pos(c, ct.call), "the descriptor variable "+id.Name+" is not rebuilt on every path through an iteration: the sample can be created with a descriptor (label names) built for an earlier label set or another metric, so values appear under the wrong label names or are rejected for their number", tr...)
 			} else {
 				c.Ok(R, dkey, pos(c, ct.call), "descriptor assigned on every path of the iteration")
